@@ -1440,6 +1440,16 @@ def gen_s5_cases(seed, tier):
         muts = [] if rng.below(2) else [m for m in SAFE_MUTS if rng.below(3) == 0]
         cases.append('%s hist=%s' % (spec('h%d' % k, v, mn, mx, RATES['0.5'], u0, e0, b0, muts, 'none'), ';'.join(first + toggles + [last])))
         k += 1
+    # a permissive setting switched OFF on a used generator, then several more pickles (default budget): anything remembered
+    # from the permissive phase (candidate lists, flags) would let opcodes through that the strict setting forbids
+    for i in range(48 if tier == 'quick' else 480):
+        v = (2, 3, 4, 5, 4, 5)[i % 6]
+        which = ('unsafe', 'ext', 'buf', 'unsafe')[i % 4]
+        on = dict(unsafe=0, ext=0, buf=0)
+        on[which] = 1
+        hist = ['s:%d' % rng.below(1 << 32), 's:%d' % rng.below(1 << 32), 'c:%s=0' % which] + ['s:%d' % (i * 8 + j) for j in range(6)]
+        cases.append('%s hist=%s' % (spec('h%d' % k, v, 60, 300, RATES['0.1'], on['unsafe'], on['ext'], on['buf'], [], 'none'), ';'.join(hist)))
+        k += 1
     return cases
 
 
